@@ -149,6 +149,19 @@ structure Clock where
 /-- the stored unix-seconds timestamp of an async entry (the model keeps births in ms: whole seconds × 1000) -/
 def tsSecs {V : Type} (e : Entry V) : Nat := e.birth / 1000
 
+/-- `CacheEntry::new(value)`: born now (`Instant::now()`), frequency 0 -/
+def newEntry {V : Type} (clock : Clock) (v : V) : Entry V := ⟨v, clock.now, 0⟩
+
+/-- `GlobalCache`: the map behind its `RwLock`, the order queue behind its mutex, and the configuration -/
+structure GlobalCache (K V F : Type) where
+  map : Store K V
+  order : List K
+  limit : Option Nat
+  max_memory : Option Nat
+  policy : Policy
+  ttl : Option Nat
+  frequency_weight : Option F
+
 /-- `AsyncGlobalCache`: the DashMap, the order queue behind its mutex, and the configuration -/
 structure AsyncCache (K V F : Type) where
   cache : Store K V
